@@ -153,11 +153,19 @@ Reopen == /\ lines' = disk.tl /\ eols' = disk.te
           /\ pl' = lines /\ pe' = eols
           /\ edit' = [k |-> "reopen", prev |-> edit] /\ disk' = disk /\ nstep' = nstep + 1
 
+\* the client re-opens the document with a buffer that differs from the file on disk (an editor restoring
+\* unsaved changes): the text of didOpen is the truth, not the file
+OpenDirty == \E t \in Texts :
+               /\ (t.tl # disk.tl \/ t.te # disk.te)
+               /\ lines' = t.tl /\ eols' = t.te /\ pl' = lines /\ pe' = eols
+               /\ edit' = [k |-> "opendirty", tl |-> t.tl, te |-> t.te] /\ disk' = disk /\ nstep' = nstep + 1
+
 \* one named disjunct per action so that TLC's coverage report is per action
 DoFull      == ChangeFull /\ Small'
 DoRange     == ChangeRange /\ Small'
 DoSplitPair == SplitPairEdit /\ Small'
-Next == DoFull \/ DoRange \/ DoSplitPair \/ Save \/ Reopen
+DoOpenDirty == OpenDirty /\ Small'
+Next == DoFull \/ DoRange \/ DoSplitPair \/ Save \/ Reopen \/ DoOpenDirty
 
 Spec == Init /\ [][Next]_vars
 \* model-checking specification: the file on disk stays the initial document (Save multiplies
@@ -207,7 +215,7 @@ SplitFlatRoundTrip == LET r == Split(Flat(lines, eols)) IN r.tl = lines /\ r.te 
 NextOne == nstep = 0 /\ (DoFull \/ DoRange \/ DoSplitPair)
 SpecOne == Init /\ [][NextOne]_vars
 \* generator: one edit, then close-without-saving and re-open (the edit must be forgotten)
-NextTwo == \/ nstep = 0 /\ (DoFull \/ DoRange)
+NextTwo == \/ nstep = 0 /\ (DoFull \/ DoRange \/ DoOpenDirty)
            \/ nstep = 1 /\ Reopen
 SpecTwo == Init /\ [][NextTwo]_vars
 ReopenShowsDisk == [][edit'.k = "reopen" => (lines' = disk.tl /\ eols' = disk.te)]_vars
